@@ -813,5 +813,6 @@ func init() {
 			Rule:   "random pattern ASTs (depth <= 3, 1-4 items per level: letters of both cases, classes, '.', '^', '$', \\n, \\w, \\b, blanks, '#' comments ending in a newline, alternation, quantifiers, unnamed/non-capturing/named groups, inline (?on-off) items with 1-3 signed flags, scoped (?on-off:...) groups) x all 32 subsets O of {i,m,n,s,x} x 6 subjects (leaf texts in order, case-flipped, with newlines, random). non-trivial = the pattern contains an inline option; distinct by pattern. Each (pattern,O): compile option O vs prefix (?O) vs wrap (?O:...) vs the explicit spelling printed from Lean Options.resolve (every leaf in (?on-off:...), unnamed groups under n as (?:...)): same compile outcome, same matches and captures on the subjects, equal parse trees modulo parser-only option bits, equal capture tables, equal find optimizations, equal compiled programs",
 			Corpus: corpus, N: c.N(800, 12000), Gen: c18Gen, Check: c18Check,
 		})
+		parserLeg(c, 400, 6000) // leg Pr: the parser model (parser.go)
 	})
 }
